@@ -243,6 +243,24 @@ void run_c04 (void)
 	for (int fi = 0 ; fi < fmt_count ; fi++)
 	{	const Fmt *f = &fmt_list [fi] ;
 		if (f->needs_path) continue ;
+		if ((f->format & SF_FORMAT_ENDMASK) == SF_ENDIAN_CPU)
+		{	/* SF_ENDIAN_CPU is the byte order of this machine: the file must be the one SF_ENDIAN_LITTLE (or _BIG on such a host) gives */
+			union { uint16_t u ; uint8_t c [2] ; } probe = { 1 } ;
+			const Fmt *g = fmt_find ((f->format & ~SF_FORMAT_ENDMASK) | (probe.c [0] ? SF_ENDIAN_LITTLE : SF_ENDIAN_BIG)) ;
+			for (int ch = 1 ; g && ch <= 2 ; ch++)
+			{	int rate = fmt_default_rate (f), B, rc ; long N ; uint64_t h1, h2 ; sf_count_t l1 ;
+				if (! rt_accepts (f, ch, rate) || ! rt_accepts (g, ch, rate)) continue ;
+				if (! vl_case ("C04 cpu-endian fmt=%s ch=%d", f->name, ch)) continue ;
+				vl_root_count (f->name) ; B = fmt_block (f, ch, rate) ; N = B > 1 ? B + 3 : 21 ;
+				if (c04_write (f, ch, rate, 0, T_SHORT, N, 0, B, &rc) != N) { vl_note ("write refused") ; vl_end (0, 0) ; continue ; }
+				h1 = md_hash (&rt_dev) ; l1 = rt_dev.len ;
+				if (c04_write (g, ch, rate, 0, T_SHORT, N, 0, B, &rc) != N) { vl_note ("write refused for the explicit order") ; vl_end (0, 0) ; continue ; }
+				h2 = md_hash (&rt_dev) ;
+				if (h1 != h2 || l1 != rt_dev.len)
+					vl_violation (rt_sig ("%s|cpu-endian-differs", rt_fam (f)), "the file written with SF_ENDIAN_CPU (%lld bytes) is not the file written with the byte order of this machine (%s, %lld bytes)", (long long) l1, g->name, (long long) rt_dev.len) ;
+				vl_end (1, h1) ;
+				}
+			}
 		if (! vl_opts.thorough && (f->format & SF_FORMAT_ENDMASK) == SF_ENDIAN_CPU) continue ;
 		for (const int *pc = chs ; *pc ; pc++)
 		{	int ch = *pc, rate = fmt_default_rate (f) ;
